@@ -442,6 +442,51 @@ def run(prog, rep, tier):
     if n212 < 10:
         raise CheckerError("R2.12: only %d LinePart::new sites" % n212)
 
+    # ------------------------------------------------------------ R2.13 "this is the file's last message" comes from one predicate at every send
+    # The coordinator supplies the missing final newline when a message is flagged as the last of its
+    # file.  The text worker sends messages from two places (the first message found by stage 2, and the
+    # streaming loop); both have to take the flag from SyslogProcessor::is_sysline_last, the one function
+    # that knows the convention (next offset == file size).  A hand-made test at one site (`fo > filesz`)
+    # is off by one for exactly the one-message file.
+    R213 = rep.rule("R2.13", "every text message is sent with the is-last flag computed by is_sysline_last")
+    wb_ = prog.body("s4::exec_syslogprocessor")
+    n213 = 0
+    for bb in sorted(wb_.live):
+        for st in wb_.stmts(bb):
+            if st[0] == "=" and st[2][0] == "agg" and isinstance(st[2][1], dict) and st[2][1].get("variant") == "NewMessage" and len(st[2][2]) >= 2:
+                n213 += 1
+                os_ = wb_.origins(st[2][2][1], through_calls=("::into", "::from"))
+                ok_ = bool(os_) and all(o_[0] == "call" and o_[2].endswith("::is_sysline_last") for o_ in os_)
+                rep.examined(R213, "%s|NewMessage#%d" % (wb_.path, n213), sample={"line": st[3], "is_last_from": sorted(str(o_[2]).split("::")[-1] if o_[0] == "call" else o_[0] for o_ in os_)})
+                if not ok_:
+                    rep.violation(R213, "%s|NewMessage|is-last-source" % wb_.path, "exec_syslogprocessor (line %d) sends a message whose is-last flag does not come from is_sysline_last() but from %s; "
+                                  "the sibling send site uses the predicate, so the two disagree at the boundary: a log holding exactly one message without a final newline is printed without the supplied newline "
+                                  "and the next file's first message is glued onto it" % (st[3], sorted(str(o_[2]).split("::")[-1] if o_[0] == "call" else o_[0] for o_ in os_)))
+    if n213 < 2:
+        raise CheckerError("R2.13: %d NewMessage sends in exec_syslogprocessor" % n213)
+
+    # ------------------------------------------------------------ R2.14 the "file too small" pre-check cannot dismiss a file that holds a message
+    # processing_loop skips files of at most FILE_TOO_SMALL_SZ bytes without reading them.  The constant
+    # has to stay below the shortest text that any row of the pattern table can match (computed over the
+    # rows' regular languages): a file of that many bytes can be one whole message.
+    import rx as _rx2
+    R214 = rep.rule("R2.14", "FILE_TOO_SMALL_SZ is smaller than the shortest text any datetime pattern matches")
+    small = prog.facts.const("s4lib::common::FILE_TOO_SMALL_SZ")
+    rows_ = prog.facts.const("s4lib::data::datetime::DATETIME_PARSE_DATAS")
+    if not isinstance(small, int) or not rows_:
+        raise CheckerError("R2.14: FILE_TOO_SMALL_SZ or DATETIME_PARSE_DATAS not found")
+    res_ = _rx2.analyze([{"id": i_, "regex": r_["fields"]["regex_pattern"], "props": []} for i_, r_ in enumerate(rows_)], limit=6000)
+    mins = sorted((r_["min_len"], r_["id"]) for r_ in res_ if r_.get("ok") and r_.get("min_len") is not None)
+    if len(mins) < 150:
+        raise CheckerError("R2.14: only %d rows analysed" % len(mins))
+    users = [b_.path for b_ in prog.bodies() if (b_.path.startswith("s4::") or b_.path.startswith("s4lib::")) and "_tests" not in b_.path
+             and any(st[0] == "=" and st[2][0] == "bin" and st[2][1] in ("Le", "Lt", "Ge", "Gt") and any(o[0] == "k" and o[2] == small and "u64" in str(o[1]) for o in (st[2][2], st[2][3]))
+                     for bb in b_.live for st in b_.stmts(bb))]
+    rep.examined(R214, "FILE_TOO_SMALL_SZ", sample={"FILE_TOO_SMALL_SZ": small, "shortest_match_bytes": mins[0][0], "row": mins[0][1], "row_line": rows_[mins[0][1]]["fields"].get("_line_num")})
+    if small >= mins[0][0]:
+        rep.violation(R214, "FILE_TOO_SMALL_SZ|too-large", "FILE_TOO_SMALL_SZ = %d, but DATETIME_PARSE_DATAS[%d] (source line %s) matches a text of only %d bytes: a log of %d bytes or fewer that holds a complete message "
+                      "(e.g. `1704067200 a`) is skipped without being read, nothing is printed and nothing is reported" % (small, mins[0][1], rows_[mins[0][1]]["fields"].get("_line_num"), mins[0][0], small))
+
     return rep.finish(
         "Static necessary-condition check of the hand-over stages only: the streaming loop threads the returned offset into the next find and "
         "sends each found message once; the sysline printers traverse lines and parts with plain forward slice iterators; the final newline is "
